@@ -53,6 +53,14 @@ pub fn report(k: &str, rows: &[String]) { println!("OBS {{\"k\": {:?}, \"rows\":
 '''
 
 
+ALT_NAMES = ["value", "input", "from"]      # named like the expansions' own parameters / the trait's method
+
+
+def fn(key, i):
+    """name of the i-th named field: a, b, c - or, for half of the cases, names the expansions use themselves"""
+    return ALT_NAMES[i] if vlib.seeded_pick(str(key), 29, 2) == 0 else "abc"[i]
+
+
 def tup(items):
     if len(items) == 0:
         return "()"
@@ -92,7 +100,7 @@ def from_module(c, key):
             if not is_enum and body == "":
                 body = ";"
         elif named[j]:
-            body = " { " + ", ".join(f"{'abc'[i]}: {P}" for i in range(n)) + " }"
+            body = " { " + ", ".join(f"{fn(key, i)}: {P}" for i in range(n)) + " }"
         else:
             body = "(" + ", ".join([P] * n) + ")"
         path = f"E::V{j}" if is_enum else "E"
@@ -103,7 +111,7 @@ def from_module(c, key):
         if n == 0:
             pat = path + ("" if body in ("", ";") else body.strip() if body.strip() in ("()", "{}") else "")
         elif named[j]:
-            pat = path + " { " + ", ".join(f"{'abc'[i]}: f{i}" for i in range(n)) + " }"
+            pat = path + " { " + ", ".join(f"{fn(key, i)}: f{i}" for i in range(n)) + " }"
         else:
             pat = path + "(" + ", ".join(f"f{i}" for i in range(n)) + ")"
         fields_vec = ("vec![" + ", ".join(f"f{i}.0" for i in range(n)) + "]") if n else "Vec::<u8>::new()"
@@ -163,7 +171,7 @@ def into_module(c, key):
     fields = []
     for f in range(n):
         a = ("#[into(skip)] " if (f + 1) in skip else "") + ("#[into] " if (f + 1) == fattr else "")
-        fields.append(f"{a}pub {'abc'[f]}: {ftys[f]}" if named else f"{a}pub {ftys[f]}")
+        fields.append(f"{a}pub {fn(key, f)}: {ftys[f]}" if named else f"{a}pub {ftys[f]}")
     if n == 0:
         body = " {}" if named else "();"
     else:
@@ -175,8 +183,8 @@ def into_module(c, key):
     if n == 0:
         init = "S {}" if named else "S()"
     else:
-        init = ("S { " + ", ".join(f"{'abc'[f]}: {v}" for f, v in enumerate(vals)) + " }") if named else "S(" + ", ".join(vals) + ")"
-    mem = lambda f: ("abc"[f - 1] if named else str(f - 1))
+        init = ("S { " + ", ".join(f"{fn(key, f)}: {v}" for f, v in enumerate(vals)) + " }") if named else "S(" + ", ".join(vals) + ")"
+    mem = lambda f: (fn(key, f - 1) if named else str(f - 1))
     rows, exp = [], []
     comp_tys = [ftys[f - 1] for f in comps]
     nc = len(comps)
@@ -258,7 +266,7 @@ def into2_module(c, key):
     impls = {tuple(x) for x in c["impls"]}
     named = vlib.seeded_pick(key, 7, 2) == 0
     ftys = ["P2" if (f + 1) == fk else "P1" for f in range(n)]
-    mem = lambda f: ("abc"[f - 1] if named else str(f - 1))
+    mem = lambda f: (fn(key, f - 1) if named else str(f - 1))
     comp_tys = [ftys[f - 1] for f in comps]
     comp_typed = ["RS" + t[1] for t in comp_tys]
     kwm = ["owned", "ref_mut", "types", "forward"]
@@ -268,7 +276,7 @@ def into2_module(c, key):
     fields = []
     for f in range(n):
         a = ("#[into(skip)] " if (f + 1) in skip else "") + (into_attr_text(fa, "ZF2") if (f + 1) == fk else "")
-        fields.append(f"{a}pub {'abc'[f]}: {ftys[f]}" if named else f"{a}pub {ftys[f]}")
+        fields.append(f"{a}pub {fn(key, f)}: {ftys[f]}" if named else f"{a}pub {ftys[f]}")
     if n == 0:
         body = " {}" if named else "();"
     else:
@@ -278,7 +286,7 @@ def into2_module(c, key):
     if n == 0:
         init = "S {}" if named else "S()"
     else:
-        init = ("S { " + ", ".join(f"{'abc'[f]}: {v}" for f, v in enumerate(vals)) + " }") if named else "S(" + ", ".join(vals) + ")"
+        init = ("S { " + ", ".join(f"{fn(key, f)}: {v}" for f, v in enumerate(vals)) + " }") if named else "S(" + ", ".join(vals) + ")"
     REF = {"owned": "", "ref": "&'static ", "ref_mut": "&'static mut "}
     SRC = {"owned": "S", "ref": "&'static S", "ref_mut": "&'static mut S"}
     # every conversion target that could exist, and whether the documented impl set has it
@@ -345,14 +353,16 @@ def key_of_into2(c):
 def constructor_modules():
     out = []
     for n in range(0, 4):
-        for named in (False, True):
-            k = f"constructor|n{n}|{'named' if named else 'tuple'}"
+        for named in (False, True, "alt"):
+            k = f"constructor|n{n}|{'named' if named is True else ('tuple' if not named else 'named_alt')}"
+            if named == "alt" and n == 0:
+                continue
             if n == 0:
                 body = " {}" if named else "();"
             else:
-                body = (" { " + ", ".join(f"pub {'abc'[f]}: P1" for f in range(n)) + " }") if named else ("(" + ", ".join(["pub P1"] * n) + ");")
+                body = (" { " + ", ".join(f"pub {fn(k, f)}: P1" for f in range(n)) + " }") if named else ("(" + ", ".join(["pub P1"] * n) + ");")
             args = ", ".join(f"P1({f + 1})" for f in range(n))
-            got = "vec![" + ", ".join(f"s.{('abc'[f] if named else f)}.0" for f in range(n)) + "]" if n else "Vec::<u8>::new()"
+            got = "vec![" + ", ".join(f"s.{(fn(k, f) if named else f)}.0" for f in range(n)) + "]" if n else "Vec::<u8>::new()"
             want = "[" + ", ".join(str(f + 1) for f in range(n)) + "]"
             mod = (f"use super::*;\n#[derive(derive_more::Constructor)]\npub struct S{body}\npub const C: S = S::new({args});\n"
                    f"pub fn run() {{ let s = S::new({args}); let mut rows: Vec<String> = vec![]; rows.push(format!(\"new {{:?}}\", {got}));\n"
